@@ -425,7 +425,9 @@ class Machine(object):
                     return
             elif kind == "jump":
                 snd = st["snd"]
-                if not (isinstance(getattr(snd, "_sequence", None), int) and getattr(snd, "_max_sequence", None) == (1 << 96) - 1):
+                # (all three AEADs of RFC 9180 have Nn = 12: the last usable sequence number is 2^96 - 2, whatever the object
+                # believes its limit to be)
+                if not isinstance(getattr(snd, "_sequence", None), int):
                     ctx.probe("jump_unavailable")
                     continue
                 if st["rcv"] is None or st["rmodel"] is None or not isinstance(getattr(st["rcv"], "_sequence", None), int):
